@@ -153,13 +153,13 @@ func genRoute(t *rapid.T) routeSpec {
 	r := routeSpec{path: "/"}
 	switch rapid.IntRange(0, 3).Draw(t, "rewrite") {
 	case 1:
-		r.strip = rapid.SampledFrom([]string{"/api", "/v1/x", "/s"}).Draw(t, "strip")
+		r.strip = rapid.SampledFrom([]string{"/api", "/v1/x", "/s", "/Files", "/API/v2"}).Draw(t, "strip")
 		r.path = r.strip
 	case 2:
-		r.prepend = rapid.SampledFrom([]string{"/pre", "/p-1/q", "/~u", "/_x"}).Draw(t, "prepend")
+		r.prepend = rapid.SampledFrom([]string{"/pre", "/p-1/q", "/~u", "/_x", "/Pre", "/SVC/x"}).Draw(t, "prepend")
 	case 3:
-		r.strip = rapid.SampledFrom([]string{"/api", "/s"}).Draw(t, "strip")
-		r.prepend = rapid.SampledFrom([]string{"/pre", "/p_2"}).Draw(t, "prepend")
+		r.strip = rapid.SampledFrom([]string{"/api", "/s", "/Files"}).Draw(t, "strip")
+		r.prepend = rapid.SampledFrom([]string{"/pre", "/p_2", "/Pre"}).Draw(t, "prepend")
 		r.path = r.strip
 	}
 	// the other matchers: the route path is then not literally a prefix of the request path,
@@ -175,9 +175,9 @@ func genRoute(t *rapid.T) routeSpec {
 			r.path = "/" // prefix matcher, route path shorter than the strip path
 		}
 	}
-	r.hostOpt = rapid.SampledFrom([]string{"", "", "dst", "backend.internal", "other.example:8080"}).Draw(t, "hostopt")
+	r.hostOpt = rapid.SampledFrom([]string{"", "", "dst", "backend.internal", "other.example:8080", "Backend.Internal"}).Draw(t, "hostopt")
 	if rapid.IntRange(0, 2).Draw(t, "tq") == 0 {
-		r.query = rapid.SampledFrom([]string{"x=1", "token=abc&v=2", "q=%20"}).Draw(t, "tquery")
+		r.query = rapid.SampledFrom([]string{"x=1", "token=abc&v=2", "q=%20", "Key=Value"}).Draw(t, "tquery")
 	}
 	return r
 }
@@ -643,6 +643,8 @@ func equalStrings(a, b []string) bool {
 	return true
 }
 
+var useActive atomic.Bool
+
 // A request without a route gets the configured status and page; no upstream is contacted.
 func TestC07NoRoute(t *testing.T) {
 	c := getChain()
@@ -654,7 +656,11 @@ func TestC07NoRoute(t *testing.T) {
 			Config:    config.Proxy{NoRouteStatus: cur.Load().(int)},
 			Transport: http.DefaultTransport,
 			Lookup: func(r *http.Request) *route.Target {
-				return c.table.Load().(route.Table).Lookup(r, "", route.Picker["rr"], route.Matcher["prefix"], route.NewGlobCache(10), false)
+				tbl := c.table.Load().(route.Table)
+				if useActive.Load() {
+					tbl = route.GetTable() // the table the proxy of the running process reads
+				}
+				return tbl.Lookup(r, "", route.Picker["rr"], route.Matcher["prefix"], route.NewGlobCache(10), false)
 			},
 		}
 		p.ServeHTTP(w, r)
@@ -663,6 +669,23 @@ func TestC07NoRoute(t *testing.T) {
 	hx.Check(t, hx.Scale(300, 10000), func(t *rapid.T) {
 		tbl, _ := route.NewTable(bytes.NewBufferString("route add svc only.example/only http://" + c.upHost() + "/"))
 		c.table.Store(tbl)
+		useActive.Store(false)
+		if rapid.IntRange(0, 2).Draw(t, "all-routes-withdrawn") == 0 {
+			// history of the active table: a catch-all route is installed, then every route is
+			// withdrawn (the registry delivers an empty configuration): from then on there is no route
+			all, err := route.NewTable(bytes.NewBufferString("route add svc / http://" + c.upHost() + "/"))
+			if err != nil {
+				t.Fatal(err)
+			}
+			route.SetTable(all)
+			empty, err := route.NewTable(bytes.NewBufferString(rapid.SampledFrom([]string{"", "\n", "# nothing left\n"}).Draw(t, "empty-config")))
+			if err != nil {
+				t.Fatal(err)
+			}
+			route.SetTable(empty)
+			useActive.Store(true)
+			hx.Class("noroute-after-all-routes-were-withdrawn")
+		}
 		status := rapid.SampledFrom([]int{0, 404, 503, 418, 999, 100000, -1, 200}).Draw(t, "status")
 		cur.Store(status)
 		page := rapid.SampledFrom([]string{"", "<html>no route</html>", "plain text", strings.Repeat("x", 5000)}).Draw(t, "page")
